@@ -5,10 +5,14 @@ from . import common
 SPEC_THEOREM = 'Props/C20: index arithmetic of every position-taking function stays inside i64/Z for all i32 arguments (Part A); recursion depth is unbounded in the input (Part B, refuted bound)'
 TRUSTED = ['Coq 8.16.1 kernel', 'extraction + OCaml driver', 'Rust harness (debug build: overflow checks on; one child process per deep case)']
 ASSUMPTIONS = ['the stack limit itself is outside the model: Part B is exhibited by child processes on this machine (default 8 MiB main-thread stack, debug build)']
-RULE = 'Part A: every position-taking function x i32 extremes and boundaries x array lengths 0..5, JSONPath indices/slices with last +- extremes. Part B: 13 entry points x arrays/objects x depths 10^2..10^5 (5*10^5 thorough), each in its own process; non-trivial = a case at an extreme argument or depth >= 1000'
+RULE = 'Part A: every position-taking function x i32 extremes and boundaries x array lengths 0..5, JSONPath indices/slices with last +- extremes, get_by_index at usize extremes. Part B: 22 entry points x arrays/objects x depths 10^2..10^5 (5*10^5 thorough), each in its own process; non-trivial = a case at an extreme argument or depth >= 1000'
 
 EXT = [0, 1, -1, 2, -2, 5, -5, 2147483647, -2147483647, -2147483648, 2147483646, 1073741824, -1073741824, 65536, -65536]
-ENTRY = ['parse', 'parse_drop', 'decode', 'encode', 'to_string', 'to_pretty_string', 'compare', 'get_by_path', 'comparable', 'contains', 'strip_nulls', 'to_serde_json', 'traverse']
+ENTRY = ['parse', 'parse_drop', 'decode', 'encode', 'to_string', 'to_pretty_string', 'compare', 'get_by_path', 'comparable', 'contains', 'strip_nulls', 'to_serde_json', 'traverse',
+         # the buffer writers and the key-path reader (second review, M5): delete_by_keypath descends one call per level (open known
+         # finding); the others were checked NOT to recurse on the document (ok at 10^5 levels) and must stay that way
+         'delete_by_keypath', 'get_by_keypath', 'concat', 'array_insert', 'object_insert', 'delete_by_name', 'delete_by_index',
+         'object_delete_pick', 'array_distinct']
 
 
 def generate(ctx):
@@ -31,6 +35,14 @@ def generate(ctx):
             for j in r.sample(EXT, 5):
                 for p in ('R;I(x%d)' % i, 'R;I(l%d)' % i, 'R;I(Sx%d~l%d)' % (i, j), 'R;I(Sl%d~x%d)' % (i, j), 'R;I(Sl%d~l%d,x%d)' % (i, j, j)):
                     ctx.add('select %s %s all' % (e, p), kind='extreme')
+    # get_by_index takes a usize: indices far beyond any array (and beyond i32 / u32 / i64) must simply miss.
+    # TODO(lead): the model converts the index with N.to_nat (the driver overflows its stack from about 2*10^6); the Coq side is
+    # being fixed -- until that is merged these cases are diff=False and judged on the implementation alone (below)
+    ctx.usize_cases = []
+    for v in (('a', []), ('a', [('u', 1), ('u', 2), ('u', 3)]), ('o', [(b'a', ('u', 1))]), ('u', 7)):
+        e = gen.hexarg(gen.enc(v))
+        for i in (2000000, (1 << 31) - 1, 1 << 31, (1 << 32) - 1, 1 << 32, (1 << 32) + 1, (1 << 63) - 1, 1 << 63, (1 << 64) - 2, (1 << 64) - 1):
+            ctx.usize_cases.append(ctx.add('get_by_index %s %d' % (e, i), kind='extreme', diff=False).id)
     # `last - 2147483648` etc. through the parser (i64 then checked_neg and i32::try_from; was saturating_neg)
     for t in (b'$[last - 2147483648]', b'$[last + 2147483647]', b'$[-2147483648 to last]', b'$[last-2147483647 to 2147483647]', b'{-2147483648}', b'{2147483647}'):
         ctx.add(('parse_json_path %s' if t[:1] == b'$' else 'parse_key_paths %s') % gen.hexarg(t), kind='extreme')
@@ -56,6 +68,10 @@ def judge(ctx):
         o = ctx.impl.get(c.id, 'missing')
         if o == 'panic' or o.startswith('abort'):
             ctx.violate('an extreme position argument panics (arithmetic overflow)', case=c.line, observed=o)
+    for cid in ctx.usize_cases:
+        o = ctx.impl.get(cid, 'missing')
+        if o != 'ok =none':
+            ctx.violate('get_by_index with an index beyond every array does not answer None', case=[c.line for c in ctx.cases if c.id == cid][0], expected='ok =none', observed=o)
     # Part B: each deep case in its own process
     import concurrent.futures
     def one(t):
@@ -71,15 +87,17 @@ def judge(ctx):
     with concurrent.futures.ThreadPoolExecutor(max_workers=8) as ex:
         for (sub, n, kind), o in ex.map(one, ctx.deep):
             ctx.count('deep_outcomes', '%s:%s' % (sub, o.split(' ')[0]))
-            ctx.nontrivial.add(('deep', sub, n, kind))
+            if core.infra_outcome(o):
+                raise core.InfraError('deep %s %d %s -> %s' % (sub, n, kind, o))
             if o.startswith('ok') or o.startswith('err'):
+                ctx.nontrivial.add(('deep', sub, n, kind))          # counted only when the call completed
                 continue
             key = (sub, kind)
             if key not in first_bad or n < first_bad[key][0]:
                 first_bad[key] = (n, o)
             cls = 'deep-recursion-%s' % sub
             k = known.get(cls)
-            if k and o.startswith('abort') and n >= k.get('min_depth_by_kind', {}).get(kind, k.get('min_depth', 1 << 62)):
+            if k and o in core.STACK_OVERFLOW_DEATHS and n >= k.get('min_depth_by_kind', {}).get(kind, k.get('min_depth', 1 << 62)):
                 ctx.known_hits[cls] = ctx.known_hits.get(cls, 0) + 1
             else:
                 ctx.violate('a nested document brings the call down' if o.startswith('abort') else 'a nested document makes the call panic',
